@@ -131,7 +131,13 @@ impl Space for C10 {
         self.fams.starts()
     }
     fn chunk(&self) -> u64 {
-        1000
+        // one worker runs the whole space in order: a scale operator that remembers anything from an
+        // earlier query (a cache keyed too coarsely, say) then fails reproducibly, and the
+        // confirmation replays the same prefix
+        self.fams.total()
+    }
+    fn confirm_range(&self, idx: u64) -> (u64, u64) {
+        (0, idx + 1)
     }
     fn reset(&mut self) {
         self.ctx.clear();
